@@ -34,6 +34,22 @@ LAYER = [
 ]
 
 
+# functions behind the parse layer in which the byte-mutation triage (findings/d7*.tsv) showed untrusted content reaching a panic: they
+# consume decoded-but-semantically-unchecked changes / stored ops, so their constructs are inventoried too
+LAYER += [
+    r"^automerge::op_set2::change::batch::BatchApply::(apply|import_ops)$", r"^automerge::op_set2::change::batch::Untangler::finish$",
+    r"^automerge::op_set2::change::ActorMapper::process_actor$", r"^automerge::op_set2::change::collector::(VecEncoder::add|OpEncoderStrategy::finish)$",
+    r"^<automerge::change_graph::ChangeIter<'a> as core::iter::traits::iterator::Iterator>::(next|nth)$",
+]
+
+# R7a is split by module: the decode / storage / apply machinery belongs to C15, the API layer (document, transactions, patches, serde, C bindings) to C37
+API_MODULES = re.compile(r"^<?(automerge::(automerge|autocommit|autoserde|transaction|patches|hydrate|marks|read|iter|text_diff|text_value|anonymize|clock|query)\b|automerge_core::)")
+
+
+def r7a_owner(p):
+    return "C37" if API_MODULES.match(norm_fn(p)) else "C15"
+
+
 def in_layer(n):
     n = n.split("::{closure")[0]
     return any(re.search(x, n) for x in LAYER)
@@ -180,21 +196,16 @@ def discharge(f, b, bi, kind, t):
     return None
 
 
-def run(ctx):
-    ctx.decides = ("R7a: every Result::unwrap/expect in automerge, hexane, automerge-c discharged (uninhabited error, Vec<u8> writer, infallible callee, reviewed row) or a listed finding; "
-                   "R7b: every panic-capable construct of the parse layer discharged by a local pattern, reviewed, or a listed finding; R6d: no trusting decoder over unvalidated non-literal bytes outside hexane.")
-    ctx.not_decided = "panic-freedom of the apply/index machinery after decoding (BatchApply, OpSet, hexane column edits), debug-only arithmetic overflow asserts, allocation-failure aborts and hangs (C17)."
-    ctx.rule("R7a", "discarded error channel: Result::unwrap/expect inventory by error type and source callee")
-    ctx.rule("R7b", "parse-layer inventory of panic-capable constructs with local discharge patterns")
-    ctx.rule("R6d", "must-validate-before-trust for every trusting streaming decoder outside hexane")
-    f = ctx.facts()
+def check_r7a(ctx, f, owner):
+    """shared with C37: Result::unwrap/expect inventory of the modules owned by `owner`"""
     mayfail = panics.MayFail(f)
-    # ---------------- R7a
     table = ctx.table("unwrap_result.tsv")
     rows = panics.result_unwraps(f)
-    ctx.floor("Result::unwrap/expect sites in library crates", len(rows), 90)
+    ctx.floor("Result::unwrap/expect sites in library crates", len(rows), 80)
     auto = 0
     for k, (p, b, bi, t, E, srcs) in util.ordinal_keys(rows, lambda r: panics.key_of(r[0], r[3], r[4], r[5], r[1])):
+        if r7a_owner(p) != owner:
+            continue
         cl, why = panics.classify_result_unwrap(f, mayfail, p, b, bi, t, E, srcs)
         if cl:
             auto += 1
@@ -203,7 +214,18 @@ def run(ctx):
             ctx.ob("R7a", k, True, t["sp"], "reviewed: " + table["R7a|" + k], via="table:" + table["R7a|" + k])
         else:
             ctx.ob("R7a", k, False, t["sp"], "the error of %s is discarded with unwrap/expect (error type %s) and the site is not reviewed" % (",".join(sorted({norm_fn(c).split("::")[-1] for c, _ in srcs})) or "a value", E))
-    ctx.note("R7a: %d sites, %d discharged automatically" % (len(rows), auto))
+    ctx.note("R7a (%s modules): %d sites in the library crates, %d of this owner discharged automatically" % (owner, len(rows), auto))
+
+
+def run(ctx):
+    ctx.decides = ("R7a: every Result::unwrap/expect in automerge, hexane, automerge-c discharged (uninhabited error, Vec<u8> writer, infallible callee, reviewed row) or a listed finding; "
+                   "R7b: every panic-capable construct of the parse layer discharged by a local pattern, reviewed, or a listed finding; R6d: no trusting decoder over unvalidated non-literal bytes outside hexane.")
+    ctx.not_decided = "panic-freedom of the apply/index machinery after decoding (BatchApply, OpSet, hexane column edits), debug-only arithmetic overflow asserts, allocation-failure aborts and hangs (C17)."
+    ctx.rule("R7a", "discarded error channel: Result::unwrap/expect inventory by error type and source callee")
+    ctx.rule("R7b", "parse-layer inventory of panic-capable constructs with local discharge patterns")
+    ctx.rule("R6d", "must-validate-before-trust for every trusting streaming decoder outside hexane")
+    f = ctx.facts()
+    check_r7a(ctx, f, "C15")
     # ---------------- R7b
     ptable = ctx.table("panic_sites.tsv")
     layer = sorted(p for p, r in f.fns.items() if r["ckey"] == ("automerge", "lib") and in_layer(norm_fn(p)))
@@ -236,7 +258,7 @@ def run(ctx):
             if norm_fn(t.get("fn")) in C39.TRUSTING:
                 b = b or cfg.body(r)
                 sites.append((p, b, bi, t))
-    ctx.floor("trusting decoder sites outside hexane", len(sites), 40)
+    ctx.floor("trusting decoder sites outside hexane", len(sites), 20)
     dtable = ctx.table("trusting_decoders.tsv")
     for k, (p, b, bi, t) in util.ordinal_keys(sites, lambda s: "%s|%s<%s>" % (norm_fn(s[0]), norm_fn(s[3]["fn"]).split("::")[-1], (s[3].get("ga") or ["?"])[0].replace("core::option::Option", "Option").replace("automerge::op_set2::types::", "").replace("automerge::op_set2::meta::", "").replace("alloc::string::", ""))):
         if C39.literal_empty(b, t["args"][0]):
